@@ -955,7 +955,7 @@ fn run_child(scratch: &Path, mut spec: Value, cpu_cap_s: u64, cases: u64) -> Chi
     if worker.stdin.write_all(line.as_bytes()).and_then(|_| worker.stdin.flush()).is_err() {
         vcommon::machinery_failure("cannot send a job to a worker process");
     }
-    let wall_cap = Duration::from_secs(cpu_cap_s * 3 + 20);
+    let wall_cap = Duration::from_secs(cpu_cap_s * 8 + 30);
     let mut killed_by_watchdog = false;
     let mut last_progress = Instant::now();
     let mut last_len = worker.offset;
